@@ -9,7 +9,8 @@ client attribute vector is one forked trace through the real handlers ending in 
            thorough: every ordered pair of all 128 rules under both assignments; every triple of the 12 rules with
            <= 1 criterion and no trust_username; tables with non-rule children
   clients  account {none, oper, oper:9, user:9} x address {inside, outside} x ident {joe, ~joe, none} x
-           host {match, other, none} x service OK {yes, no}, plus a '~'-prefixed claimed user name for ~joe
+           host {match, other, none} x service {answers OK, unlinked, silent until the request timer fires}, plus a '~'-prefixed
+           claimed user name for ~joe; every client is classified alone AND as one of a sequence in a single daemon
 Oracle: Python reference written from the module's header comment and the statement (proto.class_reference).
 """
 import itertools, multiprocessing as mp, os, traceback
@@ -39,31 +40,42 @@ def all_rules():
 
 def clients():
     cs = []
-    for acct, inside, ident, host, ok in itertools.product((None, 'oper', 'oper:9', 'user:9'), (True, False), ('joe', '~joe', None), ('m', 'o', None), (True, False)):
+    for acct, inside, ident, host, ok in itertools.product((None, 'oper', 'oper:9', 'user:9'), (True, False), ('joe', '~joe', None), ('m', 'o', None), (True, False, 'timeout')):
         claimed = ['claimed'] + (['~tilde'] if ident == '~joe' else [])
         for cl in claimed:
             cs.append(dict(account=acct, addr='10.1.2.3' if inside else '10.2.2.3', ident=ident, host={'m': 'h.match.example', 'o': 'h.other.example', None: None}[host], ok=ok, claimed=cl))
     return cs
 
 
-def client_lines(c):
-    L = ['1 C %s 1111 10.9.9.9 6667' % c['addr']]
-    L.append('1 N %s' % c['host'] if c['host'] else '1 d')
+def client_events(c, cid=1, serial=1):
+    """The client's conversation as E1 events; the service either answers OK, is reported unlinked, or stays silent until the
+    request timer fires (accept forced by the timeout with the query unanswered)."""
+    tag = '%x_%x' % (cid, serial)
+    L = ['%d C %s 1111 10.9.9.9 6667' % (cid, c['addr'])]
+    L.append('%d N %s' % (cid, c['host']) if c['host'] else '%d d' % cid)
     if c['ident']:
-        L.append('1 u %s' % c['ident'])
-    L.append('1 n Nick')
-    L.append('1 U %s :Real Name' % c['claimed'])
+        L.append('%d u %s' % (cid, c['ident']))
+    L.append('%d n Nick' % cid)
+    L.append('%d U %s :Real Name' % (cid, c['claimed']))
     if c['account']:
-        L.append('1 P :-! %s secret' % c['account'].split(':')[0])
-    L.append('1 H')
+        L.append('%d P :-! %s secret' % (cid, c['account'].split(':')[0]))
+    L.append('%d H' % cid)
     if c['account']:
-        L.append('-1 X login.svc 1_1 :OK %s' % c['account'])
-    L.append('-1 X drone.svc 1_1 :OK' if c['ok'] else '-1 x drone.svc 1_1 :Server not online')
-    return L
+        L.append('-1 X login.svc %s :OK %s' % (tag, c['account']))
+    ev = [('L', l + '\n') for l in L]
+    if c['ok'] == 'timeout':
+        ev.append(('T', cid))
+    else:
+        ev.append(('L', ('-1 X drone.svc %s :OK\n' if c['ok'] else '-1 x drone.svc %s :Server not online\n') % tag))
+    return ev
+
+
+def client_lines(c):
+    return [e[1].strip() if e[0] == 'L' else '<request timeout fires>' for e in client_events(c)]
 
 
 def expect(table, c):
-    attrs = dict(account=c['account'], addr=c['addr'], ident=c['ident'], host=c['host'], ok_services={'drone.svc'} if c['ok'] else set())
+    attrs = dict(account=c['account'], addr=c['addr'], ident=c['ident'], host=c['host'], ok_services={'drone.svc'} if c['ok'] is True else set())
     if c['account']:
         attrs['ok_services'] = set(attrs['ok_services']) | {'login.svc'}
     cls, trust = proto.class_reference(table, attrs)
@@ -81,7 +93,7 @@ def _table(tab):
     tid, table, extra, full = tab
     try:
         b = _G['b']
-        conf = e1.conf_text(os.path.join(b, 'mods-wrapped'), services=SERVICES, timeout=0, rules=table)
+        conf = e1.conf_text(os.path.join(b, 'mods-wrapped'), services=SERVICES, timeout=30, rules=table)
         if extra:
             conf = conf.replace('iauth_class {\n', 'iauth_class {\n' + extra, 1)
         srv = e1.Server(conf, builddir=b)
@@ -90,16 +102,36 @@ def _table(tab):
     V = []
     n = 0
     try:
-        for c in (_G['clients'] if full else _G['core_clients']):
+        cl = (_G['clients'] if full else _G['core_clients'])
+        # pass 1: every client alone in a fresh fork;  pass 2: all of them one after another in ONE daemon (a client's class
+        # must not depend on the clients classified before it)
+        seq_events, seq_ids = [], []
+        for k, c in enumerate(cl):
+            seq_events += client_events(c, 100 + k, k + 1)
+            seq_ids.append(100 + k)
+        res, status, err, ex = srv.trace(seq_events)
+        seq_out = [l for r in res for l in r.out]
+        if status != 'ok' or len(res) != len(seq_events):
+            V.append(('C11.died', 'the daemon ended with %s while classifying %d clients in sequence: %s' % (status, len(cl), (err.strip().splitlines() or ['?'])[0][:160]), []))
+            seq_out = None
+        for k, c in enumerate(cl):
+          for cid, out, mode in ((1, None, 'alone'), (100 + k, seq_out, 'after %d other clients' % k)):
             lines = client_lines(c)
-            res, status, err, ex = srv.trace([('L', l + '\n') for l in lines])
-            n += 1
-            out = [l for r in res for l in r.out]
-            if status != 'ok' or len(res) != len(lines):
-                V.append(('C11.died', 'the daemon ended with %s: %s' % (status, (err.strip().splitlines() or ['?'])[0][:160]), lines))
+            if out is None and mode != 'alone':
                 continue
-            verdict = [l for l in out if l[:2] in ('D ', 'R ') and l.split()[1] == '1']
-            ups = [l for l in out if l.startswith('U 1 ')]
+            if mode == 'alone':
+                evs = client_events(c)
+                res, status, err, ex = srv.trace(evs)
+                out = [l for r in res for l in r.out]
+                if status != 'ok' or len(res) != len(evs):
+                    V.append(('C11.died', 'the daemon ended with %s: %s' % (status, (err.strip().splitlines() or ['?'])[0][:160]), lines))
+                    continue
+            n += 1
+            lines = lines + ['(%s)' % mode]
+            if mode != 'alone':
+                out = [l for l in out if (' %d ' % cid) in l[:8]]
+            verdict = [l for l in out if l[:2] in ('D ', 'R ') and l.split()[1] == str(cid)]
+            ups = [l for l in out if l.startswith('U %d ' % cid)]
             wcls, wup = expect(table, c)
             if len(verdict) != 1:
                 V.append(('C11.no-verdict', 'expected exactly one accept line, got %r' % (out,), lines))
@@ -197,12 +229,13 @@ def replay(obj):
     b = build.build()
     _G['b'] = b
     table = [(n, kv) for n, kv in r['rules']]
-    conf = e1.conf_text(os.path.join(b, 'mods-wrapped'), services=SERVICES, timeout=0, rules=table)
+    conf = e1.conf_text(os.path.join(b, 'mods-wrapped'), services=SERVICES, timeout=30, rules=table)
     if r.get('extra'):
         conf = conf.replace('iauth_class {\n', 'iauth_class {\n' + r['extra'], 1)
     with e1.Server(conf, builddir=b) as srv:
-        res, status, err, ex = srv.trace([('L', l + '\n') for l in r['lines']])
-        for l, x in zip(r['lines'], res):
+        lines = [l for l in r['lines'] if not l.startswith('(')]
+        res, status, err, ex = srv.trace([('L', l + '\n') if not l.startswith('<') else ('T', 1) for l in lines])
+        for l, x in zip(lines, res):
             print('%-50s -> %r' % (l, x.out))
         print(status, err[-500:])
     print(obj['what'])
